@@ -302,7 +302,9 @@ func (c *RaftCluster) LoadClusterInfo() (*RaftCluster, error) {
 	start = time.Now()
 
 	// used to load region from kv storage to cache storage.
-	if err := c.storage.LoadRegionsOnce(c.core.CheckAndPutRegion); err != nil {
+	if err := c.storage.LoadRegionsOnce(func(region *core.RegionInfo) []*core.RegionInfo {
+		return c.core.CheckAndPutLoadedRegion(region, c.storage.SaveRegion)
+	}); err != nil {
 		return nil, err
 	}
 	log.Info("load regions",
